@@ -213,7 +213,8 @@ fn exec_c<C: Suite>(scen: &Scenario) -> Exec {
         if si < 12 {
             let pk_list: Vec<KeyPackage<C>> = sub.iter().map(|i| kps[i].clone()).collect();
             rep.evaluations += 1;
-            match keys::reconstruct::<C>(&pk_list) {
+            // alternately through frost-core and through the ciphersuite crate's own entry point
+            match if si % 2 == 0 { keys::reconstruct::<C>(&pk_list) } else { C::w_reconstruct(&pk_list) } {
                 Ok(sk) => {
                     if sc_from_bytes::<C>(&sk.serialize()) != Some(f0) {
                         return Exec::Violation(viol("C06.reconstruct_wrong", format!("reconstruct on t-subset {sub:?} gives another key")), rep);
